@@ -231,7 +231,7 @@ def run(chk: common.Check):
     centre = [("Fe", (0.0, 0.0, 0.0))] + [("N", p) for p in ((1.95, 0.1, 0.0), (-1.9, 0.0, 0.15), (0.05, 1.98, 0.0), (0.0, -1.93, 0.1), (0.1, 0.0, 1.97), (0.0, 0.12, -1.9))] \
         + [("C", (2.9, 1.0, 0.3)), ("C", (-2.8, -0.9, 0.6)), ("O", (1.2, 1.3, 1.1))]
 
-    def perceive_cluster(rot, sh):
+    def perceive_cluster(rot, sh, centre=centre):
         atoms = []
         for k, (el, pnt) in enumerate(centre):
             q = [sum(rot[i][j] * pnt[j] for j in range(3)) + sh[i] for i in range(3)]
@@ -253,6 +253,41 @@ def run(chk: common.Check):
         else:
             continue
         break
+    # pairs at and next to the distance limits of the criterion (coordinates are multiples of 0.001 A, so such distances occur exactly):
+    # one 0.001 A step inside / outside the limit the bond must exist / not exist in EVERY pose (the margin, 5e-4 relative, is 11 orders of
+    # magnitude above the rounding of a coordinate difference); exactly AT the limit the squared float distance decides - see known findings
+    lim = {("C", "O"): 2000, ("N", "H"): 1500, ("S", "S"): 2500}
+    near, exact = [], []
+    for (e1, e2), c in lim.items():
+        for off in ((c - 1, 0, 0), (c, 20, 0), (c + 1, 0, 0), (c - 1, 20, 0), (int(0.6 * c), int(0.8 * c), 30), (int(0.6 * c) - 1, int(0.8 * c), 0)):
+            near.append((e1, e2, off))
+        for off in ((c, 0, 0), (int(0.6 * c), int(0.8 * c), 0)):
+            exact.append((e1, e2, off))
+    for fam, famname in ((near, "next-to"), (exact, "exactly-at")):
+        cl = []
+        for k, (e1, e2, off) in enumerate(fam):
+            o = (12.0 * (k % 5), 12.0 * (k // 5), 0.0)
+            cl += [(e1, o), (e2, tuple(round(o[i] + off[i] / 1000.0, 3) for i in range(3)))]
+        ref_n = perceive_cluster(rots[0], (0.0, 0.0, 0.0), cl)
+        want = sorted((2 * k, 2 * k + 1) for k, (e1, e2, off) in enumerate(fam) if sum(x * x for x in off) < lim[(e1, e2)] ** 2)
+        if famname == "next-to" and ref_n != want:
+            found.append(("bonds-next-to-cutoff", f"pairs one grid step inside / outside the distance limit: bonds {ref_n}, the criterion gives {want}", {"pairs": fam}))
+        done = False
+        for ri in (range(24) if chk.thorough else (0, 5, 9, 16, 22)):
+            for sh in ((0.3, 0.3, 0.3), (12.345, -7.001, 0.003), (-77.123, 40.507, 0.004), (100.007, -2.3, 1.1)):
+                got = perceive_cluster(rots[ri], sh, cl)
+                nslide += 1
+                if got != ref_n and not done:
+                    done = True
+                    k = sorted(set(got) ^ set(ref_n))[0][0] // 2
+                    e1, e2, off = fam[k]
+                    if famname == "exactly-at":
+                        found.append(("bond-at-exact-cutoff-depends-on-translation", f"{e1} and {e2} exactly {lim[(e1, e2)] / 1000.0} A apart (offset {tuple(x / 1000.0 for x in off)} A): "
+                                      f"bonded in one pose, not in another (rotation #{ri}, shift {sh}): the squared distance of the rounded coordinate differences falls on either side of the limit",
+                                      {"elements": [e1, e2], "offset_milli_angstrom": off, "rotation": rots[ri], "shift": sh}))
+                    else:
+                        found.append(("bonds-depend-on-pose:next-to-cutoff", f"{e1} and {e2} at offset {tuple(x / 1000.0 for x in off)} A (limit {lim[(e1, e2)] / 1000.0} A): bonded in one pose, "
+                                      f"not in another (rotation #{ri}, shift {sh})", {"elements": [e1, e2], "offset_milli_angstrom": off, "rotation": rots[ri], "shift": sh}))
     chk.cov["bond_perception_poses"] = nslide
 
     # ---------------------------------------------------------------- (2) full runs
@@ -312,6 +347,9 @@ def run(chk: common.Check):
         return out
     small = protein_only(structures.read("3SGB-subset.pdb"))
     study("3SGB-subset protein, hydrogens built", small, [], PKA_TOL_BUILT, poses(23 if chk.thorough else 8, 3) + origin_poses(small, 4 if chk.thorough else 2), "built-hydrogens")
+    # a poorly resolved structure (side chains cut back to the group-defining atom): centres must still come from atoms, never from a default
+    trunc, tdesc = structures.truncated_side_chains(small)
+    study(f"3SGB-subset protein, truncated side chains ({', '.join(tdesc)}), hydrogens built", trunc, [], PKA_TOL_BUILT, poses(3 if chk.thorough else 1, 2, big=False), "built-hydrogens")
     # every coordinate axis of the deposited frame is mapped onto x, y and z once (rotations #8: x<-y.., #12: x<-z..): pair screens along one axis
     hpx_p = protein_only(structures.read("1HPX.pdb"))
     z_to_x = next(i for i, R in enumerate(rots) if R[0][2] != 0)     # new x = +-old z
